@@ -1,11 +1,12 @@
 // Driver for C19 (families other than the message codec): the conversions, identity and list converters, QoS rules /
-// flow descriptions, PCO / PSI, the UE policy container and the security functions, called from N goroutines at once.
+// flow descriptions, PCO / PSI, the UE policy container, the security functions and (build tag c19ie, with the generated
+// registry of IE types) the IE field accessors, called from N goroutines at once.
 //
 //	conc runpar <manifest.json> <outprefix> <goroutines> <rounds> <aligned|staggered|alternate>
 //	conc runseq <family> <cases.json> <order.idx> <out.ndjson>      one family, one goroutine, the cases in the given order
 //
 // The manifest names one case file per family - the SAME case formats the families' own drivers replay
-// (cmd/conv17, cmd/identity, cmd/arealists, cmd/qos, cmd/pco, cmd/uepol, cmd/sec) - and cuts each file into blocks
+// (cmd/conv17, cmd/identity, cmd/arealists, cmd/qos, cmd/pco, cmd/uepol, cmd/sec, cmd/ietypes) - and cuts each file into blocks
 // of cases of one operation kind:
 //
 //	{"families":[{"name":"f17","cases":"/path/cases.json","blocks":[[0,40],[40,95]]}, ...]}
